@@ -1777,7 +1777,14 @@ void GridLocalPolynomial::addChildLimited(const int point[], int direction, cons
     }
 }
 
-void GridLocalPolynomial::clearRefinement(){ needed = MultiIndexSet(); }
+void GridLocalPolynomial::clearRefinement(){
+    needed = MultiIndexSet();
+    if (points.empty()){ // the tree described the needed points, write() stores it and the reader sizes it by the points
+        roots = std::vector<int>();
+        pntr = std::vector<int>();
+        indx = std::vector<int>();
+    }
+}
 const double* GridLocalPolynomial::getSurpluses() const{
     return surpluses.data();
 }
